@@ -434,7 +434,7 @@ static int run_c17(uint64_t seed) {
     ol::spec_selfcheck();
     hc::begin_case("0");
     wd::arm(300, "c17");
-    long codes = 0, mapped = 0, nothing = 0;
+    long codes = 0, mapped = 0, nothing = 0; std::vector<std::string> samples;
     Rng r(seed);
     std::vector<uint32_t> all;
     for (uint32_t c = 0; c < 256; c++) all.push_back(c);
@@ -444,9 +444,10 @@ static int run_c17(uint64_t seed) {
         codes++;
         const char * exp = c <= 255 ? expected_class(c) : nullptr;
         ObjectHeaderBase * o = File::createObject((ObjectType)c);
-        if (!o) { nothing++; if (exp) hc::viol("factory:" + std::to_string(c) + ":nothing-for-known-code", std::string("expected ") + exp); continue; }
+        if (!o) { if (samples.size() < 6 && (c == 0 || c == 108 || c > 1000000)) samples.push_back("createObject(" + std::to_string(c) + ") -> nothing"); nothing++; if (exp) hc::viol("factory:" + std::to_string(c) + ":nothing-for-known-code", std::string("expected ") + exp); continue; }
         mapped++;
         std::string got = tname(o);
+        if (samples.size() < 4 && (c % 37 == 1 || c == 115)) samples.push_back("createObject(" + std::to_string(c) + ") -> " + got + ", table says " + (exp ? exp : "nothing") + ", object carries code " + std::to_string((uint32_t)o->objectType));
         if (!exp) hc::viol("factory:" + std::to_string(c) + ":object-for-unknown-code", "got " + got);
         else if (got != exp) hc::viol("factory:" + std::to_string(c) + ":wrong-class", std::string("expected ") + exp + " got " + got);
         else if ((uint32_t)o->objectType != c && got != "EnvironmentVariable" && got != "J1708Message")
@@ -511,10 +512,12 @@ static int run_c17(uint64_t seed) {
             }
         }
     }
-    char buf[300];
-    snprintf(buf, sizeof buf, "{\"codes\":%ld,\"mapped\":%ld,\"nothing\":%ld,\"classes\":%d,\"ctor_checks\":%ld,\"poison_constructions\":%ld,\"fields_compared\":%ld}",
-             codes, mapped, nothing, vr::nclasses, ctor, poison, fields_checked);
-    hc::stat(buf);
+    samples.push_back("each of " + std::to_string(vr::nclasses) + " classes constructed in memory pre-filled with 00/FF/A5/5A: e.g. " + std::string(vr::classes[r.below(vr::nclasses)].name) + " - every member and the encoding compared across the four");
+    std::ostringstream so; so << "{\"codes\":" << codes << ",\"mapped\":" << mapped << ",\"nothing\":" << nothing << ",\"classes\":" << vr::nclasses << ",\"ctor_checks\":" << ctor
+       << ",\"poison_constructions\":" << poison << ",\"fields_compared\":" << fields_checked << ",\"samples\":[";
+    for (size_t i = 0; i < samples.size(); i++) so << (i ? "," : "") << hc::jstr(samples[i]);
+    so << "]}";
+    hc::stat(so.str());
     return 0;
 }
 
